@@ -1,5 +1,6 @@
 import MindsVerif.Lemmas.RouteInfo
 import MindsVerif.Lemmas.RouteModel
+import MindsVerif.Lemmas.RouteNorm
 /-!
 # C10 — every table and model is routed to the place its name resolves to
 
@@ -433,5 +434,108 @@ theorem C10_regression_4 :
 example : isPredictor catP [n!"mindsdb", n!"pred", n!"3"] = true := by decide
 
 theorem C10_main : C10_proved := ⟨C10_resolvers, C10_model_join⟩
+
+/-! ## Round 6 — the join planner's own pushdown site; the case-mapping as a parameter
+
+`PlanJoin.check_single_integration` takes its decision from the same `get_query_info` but has no user-function test:
+whatever the walker callback of `get_query_info` does not see (a sub-query on another integration, or on a model,
+written inside an argument of `project.fn(…)` / `llm(…)`, a CASE, a cast, a window specification …) is shipped with a
+join of tables of one integration.  The theorems below are about the COMPLETE visit log (`visit`); the `plan` stream
+ties `visit` to what the live `find_objects` collects (`query_info`, `singleJoin`) on trees that nest foreign tables and
+models at every expression position. -/
+
+/-- clause (ii) for the join site, for every case-mapping `n` used by the resolver: when only names and constants sit
+in slots the walker skips, a join sent whole to `i` mentions only tables of `i` (or CTE names) — user functions or not -/
+theorem C10_pushdown_join (n : Norm) (c : Catalog) (ctes : List Name) (q : Node) (i : Name)
+    (hns : skipLeafOnly q = true) (h : checkSingleJoinG n c ctes (visit .arg q) = some i) :
+    ∀ parts ∈ allTables .arg q, belongsG n c ctes i parts := by
+  intro parts hp
+  rw [← allTables_eq_visit .arg q hns] at hp
+  obtain ⟨it, hit, hto⟩ := List.mem_filterMap.mp hp
+  cases it with
+  | table p =>
+    simp only [tableOf, Option.some.injEq] at hto; subst hto
+    exact (checkSingleJoinG_sound n c ctes _ i h).1 _ hit
+  | native => simp [tableOf] at hto
+  | udf => simp [tableOf] at hto
+
+/-- the same in the vocabulary of `Model/Route.lean` (`lower`, the code as it is: `skip = true`) -/
+theorem C10_partial_pushdown_join (c : Catalog) (ctes : List Name) (q : Node) (i : Name)
+    (hns : skipLeafOnly q = true) (h : checkSingleJoin true c ctes (visit .arg q) = some i) :
+    ∀ parts ∈ allTables .arg q, belongs true c ctes i parts := by
+  intro parts hp
+  rw [← checkSingleJoinG_lower] at h
+  rcases C10_pushdown_join lower c ctes q i hns h parts hp with hc | ⟨rest, hr, hpj⟩
+  · exact Or.inl ⟨rfl, hc⟩
+  · rw [resolveSimpleG_lower] at hr
+    exact Or.inr ⟨i, rest, hr, Or.inl ⟨rfl, hpj⟩⟩
+
+/-- `select myproj.fn(a.x, (select max(y) from int2.u)) from int1.a join int1.b on a.id = b.id` -/
+def udfJoinQuery : Node :=
+  .scope (.sel true) (.cons .tbl (.plain (.cons .tbl (.ident [n!"int1", n!"a"] false none)
+      (.cons .tbl (.ident [n!"int1", n!"b"] false none)
+        (.cons .arg (.plain (.cons .arg (.ident [n!"a", n!"id"] false none)
+          (.cons .arg (.ident [n!"b", n!"id"] false none) .nil))) .nil))))
+    (.cons .tgt (.func true (.cons .arg (.ident [n!"a", n!"x"] false none)
+      (.cons .arg (.scope (.sel false) (.cons .tbl (.ident [n!"int2", n!"u"] false none)
+        (.cons .tgt (.func false (.cons .arg (.ident [n!"y"] false none) .nil)) .nil))) .nil))) .nil))
+
+/-- the class of the round-6 change, at model level: a `find_objects` that stops descending at user-defined functions
+(`visitStop`) makes the JOIN site send the whole query to `int1` although it mentions `int2.u`; the top-level site is
+not affected (it refuses any query with a user function); on the complete visit log neither site pushes -/
+theorem C10_witness_udf_stop :
+    checkSingleJoin true cat2 [] (visitStop .arg udfJoinQuery) = some n!"int1" ∧
+    checkSingle true cat2 [] (visitStop .arg udfJoinQuery) = none ∧
+    checkSingleJoin true cat2 [] (visit .arg udfJoinQuery) = none ∧
+    skipLeafOnly udfJoinQuery = true ∧
+    [n!"int2", n!"u"] ∈ allTables .arg udfJoinQuery ∧
+    resolveSimple cat2 [n!"int2", n!"u"] = some (n!"int2", [n!"u"]) := by decide
+
+/-- so the conclusion of `C10_partial_pushdown_join` fails for a decision taken on an incomplete visit log -/
+theorem C10_pushdown_needs_complete_log :
+    ¬ (∀ parts ∈ allTables .arg udfJoinQuery, belongs true cat2 [] n!"int1" parts) := fun h => by
+  rcases h _ C10_witness_udf_stop.2.2.2.2.1 with ⟨_, hc⟩ | ⟨integ, rest, hr, hcase⟩
+  · exact absurd hc (by decide)
+  · rw [C10_witness_udf_stop.2.2.2.2.2] at hr
+    simp only [Option.some.injEq, Prod.mk.injEq] at hr
+    rcases hcase with ⟨he, _⟩ | ⟨hpj, _⟩
+    · rw [← hr.1] at he; exact absurd he (by decide)
+    · rw [← hr.1] at hpj; exact absurd hpj (by decide)
+
+-- non-vacuity of `C10_partial_pushdown_join`: a join of two int1 tables with a user function over int1 columns only
+def udfJoinOk : Node :=
+  .scope (.sel true) (.cons .tbl (.plain (.cons .tbl (.ident [n!"int1", n!"a"] false none)
+      (.cons .tbl (.ident [n!"INT1", n!"b"] false none) .nil)))
+    (.cons .tgt (.func true (.cons .arg (.ident [n!"a", n!"x"] false none) .nil)) .nil))
+
+example : checkSingleJoin true cat2 [] (visit .arg udfJoinOk) = some n!"int1" ∧ skipLeafOnly udfJoinOk = true ∧
+    checkSingle true cat2 [] (visit .arg udfJoinOk) = none := by decide
+
+/-- T10.1/T10.3 with the case-mapping as a parameter: when the resolver and the cut use the SAME function `n` — whatever
+it is — a table is fetched from the database its name resolves to under the path the resolver left over -/
+theorem C10_norm_route (n : Norm) (c : Catalog) (hd : defaultKnown c = true) (parts : List Name) (db : Name)
+    (rest : List Name) (h : resolveSimpleG n c parts = some (db, rest)) : routeSimpleG n n c parts = .fetch db rest := by
+  simp only [routeSimpleG, h, cut_eq_rest n c hd parts db rest h]
+
+/-- at `lower` this is the model of `Model/Route.lean` -/
+theorem C10_norm_instance : resolveSimpleG lower = resolveSimple ∧ mkCatalogG lower = mkCatalog ∧
+    stripPartsG lower = stripParts := ⟨resolveSimpleG_lower, mkCatalogG_lower, stripPartsG_lower⟩
+
+/-- `integrations=['Straße'], default_namespace='mindsdb'` as the constructor stores it with `str.lower` -/
+def catS : Catalog := mkCatalogG lower ⟨some [.nm n!"Straße"], none, .none, some n!"mindsdb"⟩
+
+/-- two different functions diverge: the resolver (`lower`) finds `Straße.tab` in integration `straße`, a cut that
+compares with full case folding (`ß ↦ ss`) does not recognise the qualifier: the table is sent as `Straße.tab` -/
+theorem C10_witness_norm :
+    resolveSimpleG lower catS [n!"Straße", n!"tab"] = some (n!"straße", [n!"tab"]) ∧
+    routeSimpleG lower lower catS [n!"Straße", n!"tab"] = .fetch n!"straße" [n!"tab"] ∧
+    routeSimpleG lower fold catS [n!"Straße", n!"tab"] = .fetch n!"straße" [n!"Straße", n!"tab"] ∧
+    defaultKnown catS = true := by decide
+
+theorem C10_norm_route_needs_same : ¬ (∀ (nr nc : Norm) (c : Catalog), defaultKnown c = true → ∀ parts db rest,
+    resolveSimpleG nr c parts = some (db, rest) → routeSimpleG nr nc c parts = .fetch db rest) := fun h => by
+  have := h lower fold catS C10_witness_norm.2.2.2 _ _ _ C10_witness_norm.1
+  rw [C10_witness_norm.2.2.1] at this
+  exact absurd this (by decide)
 
 end MindsVerif.Props.C10
